@@ -118,7 +118,7 @@ class Union(BackedView):
             return None
 
         def handle_change(v: View) -> None:
-            self.get_backing().setter(LEFT_GINDEX)(v.get_backing())
+            self.set_backing(self.get_backing().setter(LEFT_GINDEX)(v.get_backing()))
 
         return selected_type.view_from_backing(value_node, handle_change)
 
